@@ -1,9 +1,769 @@
-//! RISC-V emulator (to be written)
+//! RV64 emulator for the pseudo-assembly text printed by `axcut2rv64` (`Code`'s `Display` in
+//! `axcut2rv64/src/code.rs`, wrapped by `into_rv64_routine`), with poison tracking, bounds
+//! checks and the statement-boundary heap monitor.
+//!
+//! Reading of the text (fixed by the property C08): `LW`/`SW` are 64-bit accesses, execution
+//! starts at the first label, the heap register holds `HEAP_BASE` and the free register
+//! `HEAP_BASE + BLOCK`, argument `i` of main is in the second temporary of environment position
+//! `i`, and the run ends when control reaches `cleanup`.  There is no stack, no spill area and no
+//! external call in this backend.
+//!
+//! Forms accepted (exactly what `Code::fmt` can print):
+//!   `ADD Xd Xa Xb` | `ADD Xd Xa imm` (ADDI) | `SUB|MUL|DIV|REM Xd Xa Xb`
+//!   `JAL Xd label` | `JALR Xd Xa imm` | `LA Xd label` | `LI Xd imm` | `MV Xd Xa`
+//!   `LW Xd imm Xbase` | `SW Xs imm Xbase`
+//!   `BEQ|BNE|BLT|BLE|BGT|BGE Xa Xb label`
+//!   `label:` (preceded by an empty line) | `// comment` (`// @verif ...` = marker)
+
+use super::x86::dummy_context;
 use super::*;
-pub struct Program;
-pub fn parse(_text: &str) -> Result<Program, String> {
-    Err("rv64 emulator not built yet".into())
+use axcut2backend::config::{Config, TemporaryNumber};
+use axcut2backend::utils::Utils;
+use axcut2rv64::config::{Immediate, REGISTER_NUM, RESERVED, Register};
+
+/// the label the code of an `exit` statement jumps to
+const EXIT_LABEL: &str = "cleanup";
+/// bytes per instruction (`Config::jump_length(1)`)
+const INS_BYTES: u64 = 4;
+
+#[derive(Clone, Copy, Debug, PartialEq, Eq)]
+pub enum Alu {
+    Add,
+    Sub,
+    Mul,
+    Div,
+    Rem,
 }
-pub fn run(_p: &Program, _args: &[i64], _cfg: &EmuConfig) -> EmuResult {
-    unreachable!()
+
+#[derive(Clone, Copy, Debug, PartialEq, Eq)]
+pub enum Cond {
+    Eq,
+    Ne,
+    Lt,
+    Le,
+    Gt,
+    Ge,
+}
+
+#[derive(Clone, Debug)]
+pub enum Ins {
+    /// rd, rs1, rs2
+    Op(Alu, u8, u8, u8),
+    /// rd, rs1, imm (printed as `ADD` with an immediate third operand)
+    Addi(u8, u8, i64),
+    /// rd, label
+    Jal(u8, String),
+    /// rd, rs1, imm
+    Jalr(u8, u8, i64),
+    /// rd, label
+    La(u8, String),
+    /// rd, imm
+    Li(u8, i64),
+    /// rd, rs
+    Mv(u8, u8),
+    /// rd, base, offset  (text order: `LW rd offset base`)
+    Lw(u8, u8, i64),
+    /// source, base, offset  (text order: `SW source offset base`)
+    Sw(u8, u8, i64),
+    /// condition, rs1, rs2, label
+    Br(Cond, u8, u8, String),
+    Marker(Marker),
+}
+
+pub struct Program {
+    pub ins: Vec<Ins>,
+    pub line: Vec<usize>,
+    pub addr: Vec<u64>,
+    /// address one past the last instruction (address of labels at the very end)
+    pub end_addr: u64,
+    pub labels: HashMap<String, usize>,
+    pub addr_to_idx: HashMap<u64, usize>,
+    pub entry: usize,
+    /// index the label `cleanup` stands for, if the text defines it
+    pub exit: Option<usize>,
+}
+
+fn hw(r: Register) -> u8 {
+    r.0 as u8
+}
+
+fn reg_zero() -> u8 {
+    hw(axcut2rv64::config::ZERO)
+}
+fn reg_heap() -> u8 {
+    hw(<axcut2rv64::Backend as Config<Register, Immediate>>::heap())
+}
+fn reg_free() -> u8 {
+    hw(<axcut2rv64::Backend as Config<Register, Immediate>>::free())
+}
+fn reg_return() -> u8 {
+    hw(<axcut2rv64::Backend as Config<Register, Immediate>>::return1())
+}
+
+/// Register of environment position `pos` by the backend's own map; `None` if the backend has no
+/// register for that position (it asserts "Out of registers" there).
+fn position_reg(number: TemporaryNumber, pos: usize) -> Option<u8> {
+    if 2 * pos + 1 + RESERVED >= REGISTER_NUM {
+        return None;
+    }
+    let ctx = dummy_context(pos);
+    let r = <axcut2rv64::Backend as Utils<Register>>::fresh_temporary(number, &ctx);
+    Some(hw(r))
+}
+
+fn reg(s: &str) -> Result<u8, String> {
+    let n = s.strip_prefix('X').ok_or_else(|| format!("bad register {s}"))?;
+    if n.is_empty() || !n.bytes().all(|b| b.is_ascii_digit()) || (n.len() > 1 && n.starts_with('0')) {
+        return Err(format!("bad register {s}"));
+    }
+    let k: usize = n.parse().map_err(|_| format!("bad register {s}"))?;
+    if k >= REGISTER_NUM {
+        return Err(format!("bad register {s}"));
+    }
+    Ok(k as u8)
+}
+
+fn imm(s: &str) -> Result<i64, String> {
+    s.parse::<i64>().map_err(|_| format!("bad immediate {s}"))
+}
+
+fn label_name(s: &str) -> Result<String, String> {
+    if s.is_empty() || s.contains(char::is_whitespace) || s.ends_with(':') || s.starts_with("//") {
+        return Err(format!("bad label {s}"));
+    }
+    Ok(s.to_string())
+}
+
+pub fn parse(text: &str) -> Result<Program, String> {
+    let mut ins = Vec::new();
+    let mut line = Vec::new();
+    let mut labels: HashMap<String, usize> = HashMap::new();
+    let mut entry: Option<usize> = None;
+    for (ln, raw) in text.lines().enumerate() {
+        let t = raw.trim();
+        if t.is_empty() {
+            continue;
+        }
+        if let Some(c) = t.strip_prefix("//") {
+            if let Some(m) = parse_marker(c) {
+                ins.push(Ins::Marker(m));
+                line.push(ln + 1);
+            } else if c.trim_start().starts_with("@verif") {
+                return Err(format!("line {}: malformed marker {t}", ln + 1));
+            }
+            continue;
+        }
+        if let Some(l) = t.strip_suffix(':') {
+            if l.is_empty() || l.contains(' ') {
+                return Err(format!("line {}: bad label {t}", ln + 1));
+            }
+            if labels.insert(l.to_string(), ins.len()).is_some() {
+                return Err(format!("line {}: duplicate label {l}", ln + 1));
+            }
+            if entry.is_none() {
+                entry = Some(ins.len());
+            }
+            continue;
+        }
+        let unknown = || format!("line {}: unknown instruction form: {t}", ln + 1);
+        let tok: Vec<&str> = t.split(' ').collect();
+        if tok.iter().any(|x| x.is_empty()) {
+            return Err(unknown());
+        }
+        let parsed: Result<Ins, String> = (|| {
+            let want = |n: usize| -> Result<(), String> { if tok.len() == n + 1 { Ok(()) } else { Err(format!("expected {n} operands")) } };
+            Ok(match tok[0] {
+                "ADD" => {
+                    want(3)?;
+                    if tok[3].starts_with('X') {
+                        Ins::Op(Alu::Add, reg(tok[1])?, reg(tok[2])?, reg(tok[3])?)
+                    } else {
+                        Ins::Addi(reg(tok[1])?, reg(tok[2])?, imm(tok[3])?)
+                    }
+                }
+                "SUB" | "MUL" | "DIV" | "REM" => {
+                    want(3)?;
+                    let op = match tok[0] {
+                        "SUB" => Alu::Sub,
+                        "MUL" => Alu::Mul,
+                        "DIV" => Alu::Div,
+                        _ => Alu::Rem,
+                    };
+                    Ins::Op(op, reg(tok[1])?, reg(tok[2])?, reg(tok[3])?)
+                }
+                "JAL" => {
+                    want(2)?;
+                    Ins::Jal(reg(tok[1])?, label_name(tok[2])?)
+                }
+                "JALR" => {
+                    want(3)?;
+                    Ins::Jalr(reg(tok[1])?, reg(tok[2])?, imm(tok[3])?)
+                }
+                "LA" => {
+                    want(2)?;
+                    Ins::La(reg(tok[1])?, label_name(tok[2])?)
+                }
+                "LI" => {
+                    want(2)?;
+                    Ins::Li(reg(tok[1])?, imm(tok[2])?)
+                }
+                "MV" => {
+                    want(2)?;
+                    Ins::Mv(reg(tok[1])?, reg(tok[2])?)
+                }
+                "LW" => {
+                    want(3)?;
+                    Ins::Lw(reg(tok[1])?, reg(tok[3])?, imm(tok[2])?)
+                }
+                "SW" => {
+                    want(3)?;
+                    Ins::Sw(reg(tok[1])?, reg(tok[3])?, imm(tok[2])?)
+                }
+                "BEQ" | "BNE" | "BLT" | "BLE" | "BGT" | "BGE" => {
+                    want(3)?;
+                    let c = match tok[0] {
+                        "BEQ" => Cond::Eq,
+                        "BNE" => Cond::Ne,
+                        "BLT" => Cond::Lt,
+                        "BLE" => Cond::Le,
+                        "BGT" => Cond::Gt,
+                        _ => Cond::Ge,
+                    };
+                    Ins::Br(c, reg(tok[1])?, reg(tok[2])?, label_name(tok[3])?)
+                }
+                _ => return Err("mnemonic".into()),
+            })
+        })();
+        match parsed {
+            Ok(i) => {
+                ins.push(i);
+                line.push(ln + 1);
+            }
+            Err(why) => return Err(format!("{} ({why})", unknown())),
+        }
+    }
+    // addresses: every instruction is 4 bytes, markers 0
+    let mut addr = Vec::with_capacity(ins.len());
+    let mut a = CODE_BASE;
+    let mut addr_to_idx = HashMap::new();
+    for (i, x) in ins.iter().enumerate() {
+        addr.push(a);
+        // an address maps to the first item at it: the instruction itself or the first of the
+        // zero-size markers preceding it
+        addr_to_idx.entry(a).or_insert(i);
+        if !matches!(x, Ins::Marker(_)) {
+            a += INS_BYTES;
+        }
+    }
+    let end_addr = a;
+    // The end address (behind the last instruction) is the start of something only if a label
+    // stands there (`cleanup:`); trailing markers alone are not instruction starts.
+    let tail_start = ins.iter().rposition(|x| !matches!(x, Ins::Marker(_))).map_or(0, |i| i + 1);
+    addr_to_idx.remove(&end_addr);
+    if labels.values().any(|&i| i >= tail_start) {
+        addr_to_idx.insert(end_addr, tail_start);
+    }
+    let entry = entry.ok_or("no label in the text: no entry point")?;
+    let exit = labels.get(EXIT_LABEL).copied();
+    Ok(Program { ins, line, addr, end_addr, labels, addr_to_idx, entry, exit })
+}
+
+pub struct Machine<'p> {
+    pub prog: &'p Program,
+    pub regs: [u64; 32],
+    pub rdef: [bool; 32],
+    pub heap: Region,
+    pub max_written: u64,
+    pub stats: EmuStats,
+}
+
+enum Stop {
+    Done(i64),
+    Undef(Undefined),
+    Viol(ViolationKind, String),
+}
+
+impl<'p> Machine<'p> {
+    fn viol<T>(kind: ViolationKind, msg: String) -> Result<T, Stop> {
+        Err(Stop::Viol(kind, msg))
+    }
+
+    fn get(&self, r: u8) -> (u64, bool) {
+        if r == reg_zero() { (0, true) } else { (self.regs[r as usize], self.rdef[r as usize]) }
+    }
+
+    fn set(&mut self, r: u8, v: u64, d: bool) {
+        // writes to the zero register are discarded
+        if r != reg_zero() {
+            self.regs[r as usize] = v;
+            self.rdef[r as usize] = d;
+        }
+    }
+
+    fn mem_check(&mut self, addr: u64, write: bool) -> Result<usize, Stop> {
+        if addr % 8 != 0 {
+            return Self::viol(ViolationKind::OutOfBounds, format!("unaligned access at {addr:#x}"));
+        }
+        if self.heap.contains(addr) {
+            self.stats.heap_accesses += 1;
+            if write {
+                self.max_written = self.max_written.max(addr);
+            }
+            return Ok(self.heap.idx(addr));
+        }
+        if addr >= self.heap.end() && addr < self.heap.end() + (1 << 28) {
+            if std::env::var("EMU_DEBUG").is_ok() {
+                eprintln!("heap exhausted: access at {addr:#x}");
+            }
+            return Err(Stop::Undef(Undefined::Heap));
+        }
+        Self::viol(ViolationKind::OutOfBounds, format!("access outside the heap at {addr:#x}"))
+    }
+
+    fn addr_of(&mut self, base: u8, off: i64) -> Result<u64, Stop> {
+        let (b, d) = self.get(base);
+        if !d {
+            return Self::viol(ViolationKind::Poison, format!("address computed from undefined register X{base}"));
+        }
+        Ok(b.wrapping_add(off as u64))
+    }
+
+    /// Target of a direct jump / taken branch.
+    fn jump_label(&self, l: &str) -> Result<usize, Stop> {
+        match self.prog.labels.get(l) {
+            Some(i) => Ok(*i),
+            // the text does not define the exit point: jumping to it is reaching it
+            None if l == EXIT_LABEL => self.exit(),
+            None => Self::viol(ViolationKind::WildJump, format!("jump to undefined label {l}")),
+        }
+    }
+
+    fn label_addr(&self, l: &str) -> Result<u64, Stop> {
+        match self.prog.labels.get(l) {
+            Some(i) => Ok(if *i < self.prog.addr.len() { self.prog.addr[*i] } else { self.prog.end_addr }),
+            None => Self::viol(ViolationKind::WildJump, format!("address of undefined label {l}")),
+        }
+    }
+
+    /// Control reached the exit point: the result is what the return register holds.
+    fn exit<T>(&self) -> Result<T, Stop> {
+        let (v, d) = self.get(reg_return());
+        if !d {
+            return Self::viol(ViolationKind::Poison, "result register undefined at the exit point".into());
+        }
+        Err(Stop::Done(v as i64))
+    }
+
+    fn roots_for(&self, n: usize) -> Vec<(u64, bool)> {
+        // position -> first temporary by the backend's own map
+        (0..n)
+            .map(|pos| match position_reg(TemporaryNumber::Fst, pos) {
+                Some(r) => self.get(r),
+                None => (0, false),
+            })
+            .collect()
+    }
+}
+
+fn alu(op: Alu, a: u64, b: u64) -> u64 {
+    let (x, y) = (a as i64, b as i64);
+    match op {
+        Alu::Add => a.wrapping_add(b),
+        Alu::Sub => a.wrapping_sub(b),
+        Alu::Mul => x.wrapping_mul(y) as u64,
+        // RISC-V M extension: no traps; x/0 = -1, x%0 = x, MIN/-1 = MIN, MIN%-1 = 0
+        Alu::Div => {
+            if y == 0 {
+                u64::MAX
+            } else if x == i64::MIN && y == -1 {
+                i64::MIN as u64
+            } else {
+                (x / y) as u64
+            }
+        }
+        Alu::Rem => {
+            if y == 0 {
+                a
+            } else if x == i64::MIN && y == -1 {
+                0
+            } else {
+                (x % y) as u64
+            }
+        }
+    }
+}
+
+fn cond(c: Cond, a: u64, b: u64) -> bool {
+    let (x, y) = (a as i64, b as i64);
+    match c {
+        Cond::Eq => x == y,
+        Cond::Ne => x != y,
+        Cond::Lt => x < y,
+        Cond::Le => x <= y,
+        Cond::Gt => x > y,
+        Cond::Ge => x >= y,
+    }
+}
+
+pub fn run(prog: &Program, args: &[i64], cfg: &EmuConfig) -> EmuResult {
+    let mut m = Machine { prog, regs: [0; 32], rdef: [false; 32], heap: Region::new(HEAP_BASE, cfg.heap_bytes, true), max_written: 0, stats: EmuStats::default() };
+    // everything but heap, free and the arguments is undefined at entry
+    for r in 1..32usize {
+        m.regs[r] = 0xDEAD_0000_0000_0000 | r as u64;
+    }
+    m.rdef[reg_zero() as usize] = true;
+    m.set(reg_heap(), HEAP_BASE, true);
+    m.set(reg_free(), HEAP_BASE + BLOCK, true);
+    for (k, a) in args.iter().enumerate() {
+        if let Some(r) = position_reg(TemporaryNumber::Snd, k) {
+            m.set(r, *a as u64, true);
+        }
+    }
+    let mut monitor = HeapMonitor::default();
+    let mut pc = prog.entry;
+    let mut violation = None;
+    let end: Result<i64, Undefined> = loop {
+        if prog.exit == Some(pc) {
+            match m.exit::<()>() {
+                Err(Stop::Done(v)) => break Ok(v),
+                Err(Stop::Viol(kind, msg)) => {
+                    violation = Some(Violation { kind, msg, pc_line: prog.line.get(pc).copied().unwrap_or(0) });
+                    break Err(Undefined::Internal("sanitizer"));
+                }
+                _ => unreachable!(),
+            }
+        }
+        if pc >= prog.ins.len() {
+            violation = Some(Violation { kind: ViolationKind::WildJump, msg: "execution fell off the end of the code".into(), pc_line: 0 });
+            break Err(Undefined::Internal("fell off"));
+        }
+        m.stats.instructions += 1;
+        if m.stats.instructions > cfg.max_instructions {
+            break Err(Undefined::Fuel);
+        }
+        let ins = &prog.ins[pc];
+        let step: Result<usize, Stop> = (|| match ins {
+            Ins::Marker(mk) => {
+                m.stats.markers += 1;
+                *m.stats.marker_kinds.entry(mk.kind.clone()).or_insert(0) += 1;
+                m.stats.max_env = m.stats.max_env.max(mk.env.len());
+                if cfg.heap_check_every > 0 && m.stats.markers % cfg.heap_check_every == 0 {
+                    let roots = m.roots_for(mk.env.len());
+                    let view = HeapView { heap: &m.heap, heap_reg: m.get(reg_heap()), free_reg: m.get(reg_free()), roots, max_written: m.max_written };
+                    let fp = cfg.footprint_check && cfg.heap_check_every == 1;
+                    let mut st = std::mem::take(&mut m.stats);
+                    let r = monitor.check(&view, mk, &mut st, fp);
+                    m.stats = st;
+                    if let Err((k, msg)) = r {
+                        if msg == "heap exhausted" {
+                            if std::env::var("EMU_DEBUG").is_ok() {
+                                eprintln!("heap exhausted in monitor: free={:#x}", m.get(reg_free()).0);
+                            }
+                            return Err(Stop::Undef(Undefined::Heap));
+                        }
+                        return Machine::viol(k, format!("at marker stmt={} env={}: {msg}", mk.kind, mk.env.len()));
+                    }
+                }
+                Ok(pc + 1)
+            }
+            Ins::Op(op, d, a, b) => {
+                let (x, dx) = m.get(*a);
+                let (y, dy) = m.get(*b);
+                if matches!(op, Alu::Div | Alu::Rem) && !dy {
+                    return Machine::viol(ViolationKind::Poison, "division by an undefined value".into());
+                }
+                m.set(*d, alu(*op, x, y), dx && dy);
+                Ok(pc + 1)
+            }
+            Ins::Addi(d, a, i) => {
+                let (x, dx) = m.get(*a);
+                m.set(*d, x.wrapping_add(*i as u64), dx);
+                Ok(pc + 1)
+            }
+            Ins::Li(d, i) => {
+                m.set(*d, *i as u64, true);
+                Ok(pc + 1)
+            }
+            Ins::Mv(d, s) => {
+                let (v, dv) = m.get(*s);
+                m.set(*d, v, dv);
+                Ok(pc + 1)
+            }
+            Ins::La(d, l) => {
+                let a = m.label_addr(l)?;
+                m.set(*d, a, true);
+                Ok(pc + 1)
+            }
+            Ins::Lw(d, base, off) => {
+                let a = m.addr_of(*base, *off)?;
+                let i = m.mem_check(a, false)?;
+                let (v, dv) = (m.heap.words[i], m.heap.def[i]);
+                m.set(*d, v, dv);
+                Ok(pc + 1)
+            }
+            Ins::Sw(s, base, off) => {
+                let a = m.addr_of(*base, *off)?;
+                let i = m.mem_check(a, true)?;
+                let (v, dv) = m.get(*s);
+                m.heap.words[i] = v;
+                m.heap.def[i] = dv;
+                Ok(pc + 1)
+            }
+            Ins::Jal(d, l) => {
+                let t = m.jump_label(l)?;
+                m.set(*d, prog.addr[pc].wrapping_add(INS_BYTES), true);
+                Ok(t)
+            }
+            Ins::Jalr(d, s, i) => {
+                let (v, dv) = m.get(*s);
+                if !dv {
+                    return Machine::viol(ViolationKind::Poison, format!("indirect jump through undefined register X{s}"));
+                }
+                let a = v.wrapping_add(*i as u64) & !1;
+                match prog.addr_to_idx.get(&a) {
+                    Some(t) => {
+                        m.set(*d, prog.addr[pc].wrapping_add(INS_BYTES), true);
+                        Ok(*t)
+                    }
+                    None => Machine::viol(ViolationKind::WildJump, format!("indirect jump to {a:#x}, which is not the start of an instruction")),
+                }
+            }
+            Ins::Br(c, a, b, l) => {
+                let (x, dx) = m.get(*a);
+                let (y, dy) = m.get(*b);
+                if !dx || !dy {
+                    return Machine::viol(ViolationKind::Poison, "conditional jump depends on an undefined value".into());
+                }
+                if cond(*c, x, y) { m.jump_label(l) } else { Ok(pc + 1) }
+            }
+        })();
+        match step {
+            Ok(n) => pc = n,
+            Err(Stop::Done(v)) => break Ok(v),
+            Err(Stop::Undef(u)) => break Err(u),
+            Err(Stop::Viol(kind, msg)) => {
+                violation = Some(Violation { kind, msg, pc_line: prog.line[pc] });
+                break Err(Undefined::Internal("sanitizer"));
+            }
+        }
+    };
+    let mut stats = m.stats;
+    stats.max_frontier_blocks = stats.max_frontier_blocks.max(monitor.max_frontier);
+    EmuResult { outcome: Outcome { prints: Vec::new(), end }, violation, stats }
+}
+
+#[cfg(test)]
+mod tests {
+    use super::*;
+
+    fn cfg() -> EmuConfig {
+        EmuConfig { heap_bytes: 1 << 12, max_instructions: 10_000, heap_check_every: 1, footprint_check: true }
+    }
+
+    /// body of `main_` followed by the epilogue the backend prints
+    fn wrap(body: &str) -> String {
+        format!("// actual code\nmain_:\n{body}\n\ncleanup:")
+    }
+
+    fn exec(body: &str, args: &[i64]) -> EmuResult {
+        let p = parse(&wrap(body)).expect("parse");
+        run(&p, args, &cfg())
+    }
+
+    fn value(body: &str, args: &[i64]) -> i64 {
+        let r = exec(body, args);
+        assert!(r.violation.is_none(), "violation: {:?}", r.violation);
+        r.outcome.end.expect("defined result")
+    }
+
+    fn violation(body: &str, args: &[i64]) -> ViolationKind {
+        exec(body, args).violation.expect("a violation").kind
+    }
+
+    #[test]
+    fn li_mv_and_exit() {
+        assert_eq!(value("LI X5 42\nMV X10 X5\nJAL X0 cleanup", &[]), 42);
+        assert_eq!(value("LI X5 -9223372036854775808\nMV X10 X5\nJAL X0 cleanup", &[]), i64::MIN);
+        // falling through into the exit label also reaches it
+        assert_eq!(value("LI X10 7", &[]), 7);
+        // arguments: position i lives in X(2i+5)
+        assert_eq!(value("SUB X10 X5 X7\nJAL X0 cleanup", &[10, 3]), 7);
+        // the zero register reads as zero and ignores writes
+        assert_eq!(value("LI X0 5\nMV X10 X0", &[]), 0);
+    }
+
+    #[test]
+    fn exit_without_cleanup_label() {
+        let p = parse("// actual code\nmain_:\nLI X10 3\nJAL X0 cleanup").unwrap();
+        let r = run(&p, &[], &cfg());
+        assert!(r.violation.is_none());
+        assert_eq!(r.outcome.end, Ok(3));
+        // any other undefined label is a wild jump
+        let p = parse("// actual code\nmain_:\nLI X10 3\nJAL X0 nowhere").unwrap();
+        assert_eq!(run(&p, &[], &cfg()).violation.unwrap().kind, ViolationKind::WildJump);
+    }
+
+    #[test]
+    fn add_register_and_immediate() {
+        assert_eq!(value("LI X5 40\nLI X7 2\nADD X10 X5 X7", &[]), 42);
+        assert_eq!(value("LI X5 40\nADD X10 X5 -41", &[]), -1);
+        assert_eq!(value("LI X5 9223372036854775807\nADD X10 X5 1", &[]), i64::MIN);
+        assert_eq!(value("LI X5 5\nLI X7 8\nSUB X10 X5 X7", &[]), -3);
+    }
+
+    #[test]
+    fn mul_div_rem_signs() {
+        let bin = |op: &str, a: i64, b: i64| value(&format!("LI X5 {a}\nLI X7 {b}\n{op} X10 X5 X7"), &[]);
+        assert_eq!(bin("MUL", -6, 7), -42);
+        assert_eq!(bin("MUL", i64::MAX, 2), -2);
+        // truncation towards zero, remainder has the sign of the dividend
+        assert_eq!(bin("DIV", 7, 2), 3);
+        assert_eq!(bin("DIV", -7, 2), -3);
+        assert_eq!(bin("DIV", 7, -2), -3);
+        assert_eq!(bin("DIV", -7, -2), 3);
+        assert_eq!(bin("REM", 7, 2), 1);
+        assert_eq!(bin("REM", -7, 2), -1);
+        assert_eq!(bin("REM", 7, -2), 1);
+        assert_eq!(bin("REM", -7, -2), -1);
+    }
+
+    #[test]
+    fn division_by_zero_and_overflow_do_not_trap() {
+        let bin = |op: &str, a: i64, b: i64| value(&format!("LI X5 {a}\nLI X7 {b}\n{op} X10 X5 X7"), &[]);
+        assert_eq!(bin("DIV", 17, 0), -1);
+        assert_eq!(bin("DIV", -17, 0), -1);
+        assert_eq!(bin("REM", 17, 0), 17);
+        assert_eq!(bin("REM", -17, 0), -17);
+        assert_eq!(bin("DIV", i64::MIN, -1), i64::MIN);
+        assert_eq!(bin("REM", i64::MIN, -1), 0);
+    }
+
+    #[test]
+    fn branch_conditions() {
+        // result 1 if the branch is taken, 0 otherwise
+        let taken = |b: &str, x: i64, y: i64| value(&format!("LI X5 {x}\nLI X7 {y}\nLI X10 1\n{b} X5 X7 out\nLI X10 0\n\nout:"), &[]) == 1;
+        for (b, lt, eq, gt) in [("BEQ", false, true, false), ("BNE", true, false, true), ("BLT", true, false, false), ("BLE", true, true, false), ("BGT", false, false, true), ("BGE", false, true, true)] {
+            assert_eq!(taken(b, -3, 2), lt, "{b} on less (signed)");
+            assert_eq!(taken(b, 4, 4), eq, "{b} on equal");
+            assert_eq!(taken(b, 2, -3), gt, "{b} on greater (signed)");
+        }
+        // comparisons against the zero register
+        assert_eq!(value("LI X5 -1\nLI X10 1\nBLT X5 X0 out\nLI X10 0\n\nout:", &[]), 1);
+        assert_eq!(value("LI X5 0\nLI X10 1\nBGT X5 X0 out\nLI X10 0\n\nout:", &[]), 0);
+    }
+
+    #[test]
+    fn load_store_round_trip_is_64_bit() {
+        // heap register X2 = HEAP_BASE; the operand order is `value offset base`
+        assert_eq!(value("LI X5 -81985529216486896\nSW X5 56 X2\nLW X10 56 X2", &[]), -81985529216486896);
+        // the heap starts out as defined zeros
+        assert_eq!(value("LW X10 16 X2", &[]), 0);
+        // free pointer is one block above the heap pointer
+        assert_eq!(value("SUB X10 X3 X2", &[]), BLOCK as i64);
+        // negative offsets and the zero register as source
+        assert_eq!(value("LI X5 9\nSW X5 0 X3\nSW X0 -64 X3\nLW X7 0 X3\nLW X9 0 X2\nADD X10 X7 X9", &[]), 9);
+    }
+
+    #[test]
+    fn memory_outside_the_heap() {
+        assert_eq!(violation("LW X10 -8 X2", &[]), ViolationKind::OutOfBounds);
+        assert_eq!(violation("LW X10 4 X2", &[]), ViolationKind::OutOfBounds);
+        assert_eq!(violation("LI X5 0\nSW X5 0 X5", &[]), ViolationKind::OutOfBounds);
+        // just beyond the configured heap: not enough heap, no verdict
+        let r = exec("LI X5 4096\nADD X5 X5 X2\nLW X10 0 X5", &[]);
+        assert!(r.violation.is_none());
+        assert_eq!(r.outcome.end, Err(Undefined::Heap));
+    }
+
+    #[test]
+    fn la_and_jalr_through_a_jump_table() {
+        // the shape of `switch`: LA table; ADD tag; JALR; table of JALs; clauses
+        let prog = |tag: i64| {
+            format!(
+                "LI X5 {tag}\nLA X1 T_1\nADD X1 X1 X5\nJALR X0 X1 0\n\nT_1:\nJAL X0 T_1_A\nJAL X0 T_1_B\nJAL X0 T_1_C\n\nT_1_A:\nLI X10 100\nJAL X0 cleanup\n\nT_1_B:\nLI X10 200\nJAL X0 cleanup\n\nT_1_C:\nLI X10 300\nJAL X0 cleanup"
+            )
+        };
+        assert_eq!(value(&prog(0), &[]), 100);
+        assert_eq!(value(&prog(4), &[]), 200);
+        assert_eq!(value(&prog(8), &[]), 300);
+        // not an instruction start
+        assert_eq!(violation(&prog(2), &[]), ViolationKind::WildJump);
+        assert_eq!(violation(&prog(-4000), &[]), ViolationKind::WildJump);
+        // the shape of `invoke`: ADD X1 table imm; JALR X0 X1 0, table address held in a variable
+        let inv = "LA X5 T_2\nADD X1 X5 4\nJALR X0 X1 0\n\nT_2:\nJAL X0 T_2_A\nJAL X0 T_2_B\n\nT_2_A:\nLI X10 1\nJAL X0 cleanup\n\nT_2_B:\nLI X10 2\nJAL X0 cleanup";
+        assert_eq!(value(inv, &[]), 2);
+        // JALR with a link register and an immediate offset
+        assert_eq!(value("LA X5 here\nJALR X7 X5 4\n\nhere:\nLI X10 1\nSUB X10 X7 X5", &[]), 0);
+    }
+
+    #[test]
+    fn markers_take_no_space_and_are_visited_by_indirect_jumps() {
+        let body = "LA X1 T_1\nJALR X0 X1 4\n\nT_1:\nJAL X0 T_1_A\n// @verif stmt=lit n=0 env=[]\n// lit x <- 1;\nLI X10 5\nJAL X0 cleanup\n\nT_1_A:\nLI X10 6";
+        let r = exec(body, &[]);
+        assert!(r.violation.is_none(), "{:?}", r.violation);
+        assert_eq!(r.outcome.end, Ok(5));
+        assert_eq!(r.stats.markers, 1);
+        assert_eq!(r.stats.heap_walks, 1);
+    }
+
+    #[test]
+    fn poison_uses() {
+        // everything but heap, free and the arguments is undefined at entry
+        assert_eq!(violation("MV X10 X5\nJAL X0 cleanup", &[]), ViolationKind::Poison);
+        assert_eq!(violation("JAL X0 cleanup", &[]), ViolationKind::Poison);
+        assert_eq!(violation("BEQ X5 X0 cleanup", &[]), ViolationKind::Poison);
+        assert_eq!(violation("LW X10 0 X5", &[]), ViolationKind::Poison);
+        assert_eq!(violation("JALR X0 X1 0", &[]), ViolationKind::Poison);
+        assert_eq!(violation("LI X5 1\nDIV X10 X5 X7", &[]), ViolationKind::Poison);
+        // propagation through arithmetic and memory
+        assert_eq!(violation("LI X5 1\nADD X7 X5 X9\nSW X7 16 X2\nLW X10 16 X2", &[]), ViolationKind::Poison);
+        // an argument is defined
+        assert_eq!(value("MV X10 X5", &[11]), 11);
+    }
+
+    /// the backend's own golden files (printed without markers) all parse and run to `cleanup`
+    #[test]
+    fn golden_files_of_the_backend() {
+        let dir = std::path::Path::new("/repo/lang/axcut2rv64/tests/asm");
+        let Ok(rd) = std::fs::read_dir(dir) else { return };
+        let mut seen = 0;
+        for e in rd.flatten() {
+            let name = e.file_name().to_string_lossy().to_string();
+            let Some(stem) = name.strip_suffix(".rv64.asm") else { continue };
+            let text = std::fs::read_to_string(e.path()).unwrap();
+            let p = parse(&text).unwrap_or_else(|err| panic!("{name}: {err}"));
+            let r = run(&p, &[], &EmuConfig::default());
+            assert!(r.violation.is_none(), "{name}: {:?}", r.violation);
+            let v = r.outcome.end.unwrap_or_else(|u| panic!("{name}: {u:?}"));
+            eprintln!("{name}: {v} after {} instructions", r.stats.instructions);
+            match stem {
+                "mini" => assert_eq!(v, 10),
+                "arith" => assert_eq!(v, 60),
+                _ => {}
+            }
+            seen += 1;
+        }
+        assert!(seen >= 2);
+    }
+
+    #[test]
+    fn tmp_adhoc() {
+        let Ok(path) = std::env::var("RV_ADHOC") else { return };
+        let text = std::fs::read_to_string(path).unwrap();
+        let p = parse(&text).unwrap();
+        let r = run(&p, &[], &EmuConfig::default());
+        eprintln!("{:?} {:?}\n{:?}", r.outcome.end, r.violation, r.stats);
+    }
+
+    #[test]
+    fn unknown_forms_are_harness_errors() {
+        for bad in ["ADDI X5 X5 1", "LW X5 X2 16", "LW X5 16(X2)", "MV X5 7", "LI X5 X7", "ADD X5 X7", "BEQ X5 0 lab", "JALR X0 X1", "X5", "add X5 X5 X5", "LI X32 0", "NOP"] {
+            let e = parse(&wrap(bad)).err().unwrap_or_else(|| panic!("{bad} accepted"));
+            assert!(e.contains("unknown instruction form"), "{e}");
+        }
+        assert!(parse("LI X5 1").is_err(), "no label, no entry point");
+        // fuel
+        let p = parse(&wrap("\nloop:\nJAL X0 loop")).unwrap();
+        assert_eq!(run(&p, &[], &cfg()).outcome.end, Err(Undefined::Fuel));
+    }
 }
